@@ -127,6 +127,31 @@ def gen_multi(rng, tier, force=None):
     return c
 
 
+def gen_fantasy(rng, base=None, learn=None):
+    """a likelihood obtained by 1..3 get_fantasy_likelihood calls (directly, or through ExactGP.get_fantasy_model),
+    applied to a distribution over the n0 old points followed by the appended points"""
+    base = base or rng.choice(["fixed", "fixed", "gauss"])
+    n0 = rng.randint(1, 3)
+    k = rng.randint(1, 3)
+    via_model = rng.random() < 0.4
+    # batch shape of the new noise (the stored noise is expanded to it); through a model the batch is a fantasy batch
+    fb = [] if (via_model or base == "gauss") else rng.choice([[], [], [2]])
+    db = rng.choice([[], fb]) if fb else rng.choice([[], [], [2]])
+    steps = []
+    for _ in range(k):
+        m = rng.randint(1, 2)
+        steps.append(dict(m=m, noise=nested(rng, fb + [m], pos) if base == "fixed" else None))
+    n = n0 + sum(st["m"] for st in steps)
+    learn = (rng.random() < 0.5 if learn is None else learn) and base == "fixed"
+    c = dict(fam="fantasy", base=base, n0=n0, n=n, steps=steps, fb=fb, db=db, lb=[], via_model=via_model, learn=learn,
+             stored=nested(rng, [n0], pos) if base == "fixed" else None,
+             second=nested(rng, [1], pos) if learn else None,
+             noise=nested(rng, [1], pos) if base == "gauss" else None,
+             with_param=rng.random() < 0.3, mseed=rng.randint(0, 10 ** 9))
+    c.update(gen_dist(rng, db, n))
+    return c
+
+
 def gen_list(rng, with_noise):
     k = rng.randint(1, 3)
     members = []
@@ -166,6 +191,11 @@ def gen_configs(rng, tier):
     for wn in (False, True):
         for _ in range(15 if q else 100):
             cfgs.append(gen_list(rng, wn))
+    # fantasy likelihoods (own stream: the configurations above stay what they were)
+    frng = random.Random(rng.randint(0, 10 ** 9))
+    for base, learn in (("fixed", False), ("fixed", True), ("gauss", False)):
+        for _ in range((14 if base == "fixed" else 6) if q else 80):
+            cfgs.append(gen_fantasy(frng, base=base, learn=learn))
     return cfgs
 
 
@@ -201,6 +231,10 @@ def build(c):
         dist = MultivariateNormal(mean, cov)
         if c["call"] is not None:
             kwargs["noise"] = T(c["call"])
+    elif fam == "fantasy":
+        lik = fantasy_likelihood(c)
+        mean, cov, y = build_dist(c, c["n"])
+        dist = MultivariateNormal(mean, cov)
     elif fam == "multi":
         n, t = c["n"], c["t"]
         lik = MultitaskGaussianLikelihood(num_tasks=t, rank=c["rank"], batch_shape=torch.Size(c["lb"]),
@@ -224,6 +258,48 @@ def build(c):
     return lik, dist, y, kwargs, params
 
 
+class _GP(gpytorch.models.ExactGP):
+    def __init__(self, x, y, lik):
+        super().__init__(x, y, lik)
+        self.mean_module, self.covar_module = gpytorch.means.ZeroMean(), gpytorch.kernels.RBFKernel()
+
+    def forward(self, x):
+        return MultivariateNormal(self.mean_module(x), self.covar_module(x))
+
+
+def fantasy_base(c):
+    if c["base"] == "gauss":
+        lik = GaussianLikelihood()
+        lik.noise = T(c["noise"])
+    else:
+        lik = FixedNoiseGaussianLikelihood(T(c["stored"]), learn_additional_noise=c["learn"])
+        if c["learn"]:
+            lik.second_noise = T(c["second"])
+    return lik
+
+
+def fantasy_likelihood(c, keep=None):
+    """the likelihood after the configured get_fantasy_likelihood steps; keep (a list) receives the source likelihood"""
+    lik = fantasy_base(c)
+    if keep is not None:
+        keep.append(lik)
+    rng = random.Random(c["mseed"])
+    pts = lambda k: T([[rng.randint(-40, 40) / 8.0] for _ in range(k)])  # noqa: E731
+    if c["via_model"]:
+        model = _GP(pts(c["n0"]), T([dy(rng) for _ in range(c["n0"])]), lik)
+        model.eval(); lik.eval()
+        with torch.no_grad():
+            model(pts(2))
+            for st in c["steps"]:
+                kw = dict(noise=T(st["noise"])) if c["base"] == "fixed" else {}
+                model = model.get_fantasy_model(pts(st["m"]), T([dy(rng) for _ in range(st["m"])]), **kw)
+        return model.likelihood
+    for st in c["steps"]:
+        kw = dict(noise=T(st["noise"])) if c["base"] == "fixed" else {}
+        lik = lik.get_fantasy_likelihood(**kw)
+    return lik
+
+
 def impl_run(c):
     lik, dist, y, kwargs, params = build(c)
     with torch.no_grad():
@@ -231,6 +307,14 @@ def impl_run(c):
         added = marg.covariance_matrix - dist.covariance_matrix
         res = dict(added=added, mean_delta=float((marg.mean - dist.mean).abs().max()),
                    cls_same=type(marg) is type(dist))
+        if c["fam"] == "fantasy":
+            # the source likelihood still adds its own noise to a distribution over the old points
+            keep = []
+            fantasy_likelihood(c, keep)
+            src = keep[0]
+            src.eval()
+            d0 = MultivariateNormal(torch.zeros(c["n0"]), torch.eye(c["n0"]))
+            res["source_added"] = (src(d0).covariance_matrix - d0.covariance_matrix)
         if is_mismatch(c):
             # documented no-op for the fixed part; only the marginal is meaningful (R may be 0)
             return res
@@ -256,6 +340,15 @@ def params_public(c, lik):
     with torch.no_grad():
         if c["fam"] == "gauss":
             return dict(noise=lik.noise)
+        if c["fam"] == "fantasy":
+            # parameters of the SOURCE likelihood (the fantasy likelihood's stored noise is what is being checked)
+            src = fantasy_base(c)
+            if c["base"] == "gauss":
+                return dict(noise=src.noise)
+            d = dict(old=src.noise_covar.noise)
+            if c["learn"]:
+                d["second"] = src.second_noise
+            return d
         if c["fam"] == "fixed":
             d = dict(stored=lik.noise_covar.noise)
             if c["learn"]:
@@ -285,6 +378,12 @@ def coq_cfg(c, pub, B, b, N, call=None):
     fam = c["fam"]
     if fam == "gauss":
         return "(LHomo %s)" % C.qc_lit(bsel(pub["noise"], c["lb"], B, b, 1)[0].item())
+    if fam == "fantasy":
+        if c["base"] == "gauss":
+            return "(LHomo %s)" % C.qc_lit(pub["noise"].reshape(-1)[0].item())
+        news = [bsel(T(st["noise"]), c["fb"], B, b, 1).tolist() for st in c["steps"]]
+        second = pub["second"].reshape(-1)[0].item() if c["learn"] else None
+        return "(LFantasy %s [%s] %s)" % (C.qc_vec(pub["old"].tolist()), "; ".join(C.qc_vec(v) for v in news), opt_q(second))
     if fam == "fixed":
         if c["call"] is None and not is_mismatch(c):
             stored = bsel(pub["stored"], c["nb"], B, b, 1).tolist()
@@ -313,7 +412,9 @@ def flat_event(c, x):
 def case_batch(c):
     """batch shape of the result: broadcast of the batch shapes of everything that is USED"""
     shapes = [c["db"]]
-    if c["fam"] == "fixed":
+    if c["fam"] == "fantasy":
+        shapes.append(c["fb"])
+    elif c["fam"] == "fixed":
         if c["learn"]:
             shapes.append(c["lb"])
         if c["call"] is not None:
@@ -369,8 +470,10 @@ def list_model_term(c):
 def describe(c):
     if c["fam"] == "list":
         return dict(fam="list", members=[describe(m) for m in c["members"]], with_noise=c["noises"] is not None)
-    d = {k: c[k] for k in ("fam", "n", "t", "rank", "hg", "ht", "il", "lb", "db", "nb", "cb", "learn", "with_param")
-         if k in c}
+    d = {k: c[k] for k in ("fam", "n", "t", "rank", "hg", "ht", "il", "lb", "db", "nb", "cb", "learn", "with_param",
+                           "base", "n0", "fb", "via_model") if k in c}
+    if c["fam"] == "fantasy":
+        d["steps"] = [st["m"] for st in c["steps"]]
     if c["fam"] == "fixed":
         d["call_noise"] = c["call"] is not None
         d["size_mismatch"] = is_mismatch(c)
@@ -386,6 +489,9 @@ def _last(x):
 def key_of(c):
     if c["fam"] == "gauss":
         return "gaussian"
+    if c["fam"] == "fantasy":
+        return "fantasy:%s%s:%s" % ("gaussian" if c["base"] == "gauss" else "fixednoise", "+learned" if c["learn"] else "",
+                                    "get_fantasy_model" if c["via_model"] else "get_fantasy_likelihood")
     if c["fam"] == "fixed":
         return "fixednoise:%s%s" % ("call-noise" if c["call"] is not None else "stored-noise",
                                     "+learned" if c["learn"] else "")
@@ -419,6 +525,15 @@ def compare_single(out, c, res, results, idx, B):
             if list(x.shape) != want:
                 out.fail(key + ":" + name + ":shape", "%s has shape %s, expected %s" % (name, list(x.shape), want), desc)
                 return False
+    if "source_added" in res:
+        n0 = c["n0"]
+        want = torch.diag(T(c["stored"]) + (T(c["second"]) if c["learn"] else 0.0)) if c["base"] == "fixed" else \
+            torch.eye(n0) * T(c["noise"])
+        sa = res["source_added"]
+        if list(sa.shape) != [n0, n0] or not all(close(sa[i, j].item(), want[i, j].item()) for i in range(n0) for j in range(n0)):
+            out.fail(key + ":source", "after get_fantasy_likelihood the SOURCE likelihood no longer adds its own noise", desc,
+                     impl=sa.tolist(), model=want.tolist())
+            ok = False
     for b, r in zip(idx, results):
         rd = C.Reader(r)
         R = rd.qmat(N, N)
@@ -553,7 +668,10 @@ def run(out, ctx):
     torch.manual_seed(seed)
     cfgs = gen_configs(rng, tier)
     out.rule = ("configuration grid {FixedNoise: learn_additional_noise x call-time noise; Multitask: t 1..4 x rank 0..t x "
-                "(global,task) switches x layout} plus random Gaussian / FixedNoise / Multitask / LikelihoodList cases; "
+                "(global,task) switches x layout} plus random Gaussian / FixedNoise / Multitask / LikelihoodList cases; plus fantasy likelihoods (Gaussian, "
+                "FixedNoise with / without learned noise; 1..3 get_fantasy_likelihood(noise=new) steps of 1..2 points, called "
+                "directly or through ExactGP.get_fantasy_model, new-noise batch [] / [2]) applied to a distribution over the "
+                "old points followed by the appended points: the model stores [old; new_1; ...; new_k]; "
                 "event sizes 1..4 (n*t <= 16), likelihood / stored-noise / call-noise / distribution batch shapes of rank "
                 "0..2 drawn from %s (any broadcastable combination, multitask included); every element of the broadcast batch is compared; "
                 "non-trivial = flattened event size >= 2" % BATCHES)
